@@ -40,6 +40,15 @@ def main():
         elif model == 'heap':
             from . import m_heap
             r = m_heap.run(fns, unit)
+        elif model == 'qf' and unit.get('op') == 'validate':
+            import random
+            from . import m_qf
+            rng = random.Random(unit.get('seed', 0))
+            r = {'paths': 0, 'queries': 0, 'failed': [], 'witnesses': {}, 'cexs': {}, 'cases': []}
+            for _ in range(unit.get('n', 12)):
+                c = m_qf.random_case(rng)
+                r['cases'].append({'case': c, 'encoding': m_qf.eval_concrete_insert(fns, c['bq'], c['br'], c['members'], c['y'])})
+                r['queries'] += 1
         elif model == 'qf':
             from . import m_qf
             r = m_qf.run(fns, unit)
